@@ -1,6 +1,7 @@
 package main
 
 import (
+	"regexp/syntax"
 	"fmt"
 	"go/constant"
 	"go/token"
@@ -621,6 +622,26 @@ func augEveryIterationPops(c *Ctx, f *ssa.Function, l *loopInfo) (bool, string) 
 			}
 		}
 	}
+	// a stand-alone pop (a method on the list type handed the list's address):
+	// closures that call it unconditionally with the list pop
+	staticPop := augStaticPop(f)
+	if staticPop != nil {
+		for _, fn := range f.AnonFuncs {
+			for _, bb := range fn.Blocks {
+				for _, ii := range bb.Instrs {
+					if call, ok := ii.(*ssa.Call); ok && call.Call.StaticCallee() == staticPop && len(call.Call.Args) > 0 && dominatesAllReturns(call.Block(), fn) {
+						if fv, ok := call.Call.Args[0].(*ssa.FreeVar); ok {
+							for i, bnd := range fnBindings(f, fn) {
+								if fn.FreeVars[i] == fv && bnd == ssa.Value(listAlloc) {
+									popping[fn] = true
+								}
+							}
+						}
+					}
+				}
+			}
+		}
+	}
 	if len(popping) == 0 {
 		return false, "no closure removes the head of the list"
 	}
@@ -649,6 +670,13 @@ func augEveryIterationPops(c *Ctx, f *ssa.Function, l *loopInfo) (bool, string) 
 				pops++
 			}
 		}
+		if staticPop != nil {
+			for _, ev := range p.Events {
+				if isPopStore(ev) {
+					pops++
+				}
+			}
+		}
 		if pops > 0 {
 			continue
 		}
@@ -656,7 +684,7 @@ func augEveryIterationPops(c *Ctx, f *ssa.Function, l *loopInfo) (bool, string) 
 		bounded := false
 		for _, lt := range p.Lits {
 			s := lt.Atom.String()
-			if lt.Pol && strings.HasPrefix(s, "(?phi:i < len(") && strings.HasSuffix(s, ".Args.Values))") {
+			if lt.Pol && strings.HasPrefix(s, "(?phi:i < len(") && strings.HasSuffix(s, ".Values))") {
 				bounded = true
 			}
 		}
@@ -708,6 +736,7 @@ func miscRules(c *Ctx, a *flAgg) {
 	} else {
 		a.und("RACE-israce", "Snapshot.IsRace", "not found", token.NoPos)
 	}
+	raceKind(c, a)
 	// PARSE-atou: which digit counts are accepted. The guard only looks at
 	// len(s), so it is evaluated for every length: all comparisons between
 	// (sums of) len(s) and constants are decided for a fixed length L, the
@@ -975,6 +1004,7 @@ func miscRules(c *Ctx, a *flAgg) {
 		recv, raw := f.Params[0].Name(), f.Params[1].Name()
 		okC, okI, okN := true, true, true
 		okDot := true
+		okMain, nMainT, nMainF := true, 0, 0
 		nOK := 0
 		for _, p := range x.Paths {
 			if p.Term != "return" || len(p.Results) != 1 || !p.Results[0].isNilConst() {
@@ -1016,11 +1046,55 @@ func miscRules(c *Ctx, a *flAgg) {
 			if nm == nil || !(strings.Contains(nm.String(), "QueryUnescape("+raw+")#0[") ) {
 				okN = false
 			}
+			// IsPkgMain: the import path - not its last element - is "main"
+			ipS := recv + ".ImportPath"
+			if ip := p.Cells["&"+recv+".ImportPath"]; ip != nil {
+				ipS = ip.String()
+			}
+			isMain, haveMain := false, false
+			for _, lt := range p.Lits {
+				at := lt.Atom
+				if at.Op != OpBin || at.Tok != token.EQL || len(at.Args) != 2 {
+					continue
+				}
+				for _, pr := range [][2]*Expr{{at.Args[0], at.Args[1]}, {at.Args[1], at.Args[0]}} {
+					if k, isC := constStr(pr[1]); isC && k == "main" && pr[0].String() == ipS {
+						isMain, haveMain = lt.Pol, true
+					}
+				}
+			}
+			pm := p.Cells["&"+recv+".IsPkgMain"]
+			set := false
+			if pm != nil {
+				if v, isC := pm.boolConst(); isC && v {
+					set = true
+				} else if !isC {
+					if pm.Op == OpBin && pm.Tok == token.EQL && strings.Contains(pm.String(), ipS+" == \"main\"") {
+						haveMain, isMain, set = true, true, true // assigned the comparison itself
+						nMainT, nMainF = nMainT+1, nMainF+1
+					} else {
+						okMain = false
+					}
+				}
+			}
+			if !haveMain && set || haveMain && isMain != set {
+				okMain = false
+			}
+			if haveMain && isMain {
+				nMainT++
+			} else if haveMain {
+				nMainF++
+			}
 		}
 		if okDot {
 			a.ok("PARSE-funcinit", "Func.Init/dot-after-path", "a symbol with a path part is accepted only with a dot after its last slash", f.Pos())
 		} else {
 			a.bad("PARSE-funcinit", "Func.Init/dot-after-path", "a symbol with a path part but no dot after its last slash is accepted: package and name are then cut at the slash itself", f.Pos())
+		}
+		if nOK > 0 && okMain && nMainT > 0 && nMainF > 0 {
+			a.ok("PARSE-funcinit", "Func.Init/pkgmain", "a function is in package main iff its import path is \"main\"", f.Pos())
+		} else {
+			a.bad("PARSE-funcinit", "Func.Init/pkgmain", "IsPkgMain is not set exactly when the whole import path equals \"main\" (a package example.com/x/main is not the program's main package): frames are ranked and highlighted as main code that are not", f.Pos())
 		}
 		if nOK > 0 && okC && okI && okN {
 			a.ok("PARSE-funcinit", "Func.Init", "Complete is the unescaped raw symbol, ImportPath the unescaped package part, Name a suffix of Complete", f.Pos())
@@ -1052,4 +1126,250 @@ func miscRules(c *Ctx, a *flAgg) {
 			a.bad("WEB-trunc", "webstack.snapshot", "snapshot does not parse its buffer with ScanSnapshot treating io.EOF as success", f.Pos())
 		}
 	}
+}
+
+// raceKind (RACE-kind): a captured group compared with a constant byte
+// slice (bytes.Equal(match[k], G)) is compared with a text the group can
+// capture; for the operation kind - (Read|Write), (read|write) - with the
+// spelling of "write". A constant that lost a character makes the test
+// constant false: every operation of a report becomes a read.
+func raceKind(c *Ctx, a *flAgg) {
+	scan := c.L.Func("stack", "scanningState", "scan")
+	if scan == nil {
+		return
+	}
+	init := scan.Pkg.Func("init")
+	constOf := func(g *ssa.Global) (string, bool) {
+		if init == nil {
+			return "", false
+		}
+		val, n := "", 0
+		for _, b := range init.Blocks {
+			for _, in := range b.Instrs {
+				st, ok := in.(*ssa.Store)
+				if !ok || st.Addr != ssa.Value(g) {
+					continue
+				}
+				n++
+				if cv, ok := st.Val.(*ssa.Convert); ok {
+					if k, ok := cv.X.(*ssa.Const); ok && k.Value != nil && k.Value.Kind() == constant.String {
+						val = constant.StringVal(k.Value)
+						continue
+					}
+				}
+				return "", false
+			}
+		}
+		return val, n == 1
+	}
+	n := 0
+	for _, f := range blocksOwners(scan) {
+		for _, b := range f.Blocks {
+			for _, in := range b.Instrs {
+				call, ok := in.(*ssa.Call)
+				if !ok {
+					continue
+				}
+				cal := call.Call.StaticCallee()
+				if cal == nil || !fnIs(cal, "bytes", "Equal") || len(call.Call.Args) != 2 {
+					continue
+				}
+				for _, pr := range [][2]ssa.Value{{call.Call.Args[0], call.Call.Args[1]}, {call.Call.Args[1], call.Call.Args[0]}} {
+					ld, ok := pr[1].(*ssa.UnOp)
+					if !ok || ld.Op != token.MUL {
+						continue
+					}
+					g, ok := ld.X.(*ssa.Global)
+					if !ok {
+						continue
+					}
+					pat, k, ok := submatchGroupOf(pr[0])
+					if !ok {
+						continue
+					}
+					val, isC := constOf(g)
+					key := g.Name() + "~" + pat.Name()
+					if !isC {
+						a.und("RACE-kind", key, "the byte slice compared with the captured group is not a constant set once in init", call.Pos())
+						continue
+					}
+					ps, okp := regexpPattern(c.L, "stack", pat.Name())
+					if !okp {
+						continue
+					}
+					alts, fin := rxGroupStrings(ps, k)
+					if !fin {
+						continue
+					}
+					n++
+					in := false
+					kinds := false
+					for _, s := range alts {
+						if s == val {
+							in = true
+						}
+						if strings.EqualFold(s, "write") {
+							kinds = true
+						}
+					}
+					switch {
+					case !in:
+						a.bad("RACE-kind", key, fmt.Sprintf("group %d of %s captures one of %q; it is compared with %q, which is never equal: the kind of every race operation is read", k, pat.Name(), alts, val), call.Pos())
+					case kinds && !strings.EqualFold(val, "write"):
+						a.bad("RACE-kind", key, fmt.Sprintf("the write flag of a race operation is computed by comparing its kind with %q", val), call.Pos())
+					default:
+						a.ok("RACE-kind", key, fmt.Sprintf("the kind captured by group %d of %s is compared with %q, one of its alternatives", k, pat.Name(), val), call.Pos())
+					}
+				}
+			}
+		}
+	}
+	if n == 0 {
+		a.und("RACE-kind", "scan", "no comparison of a captured operation kind with a constant was found", scan.Pos())
+	}
+}
+
+// blocksOwners: fn and the helpers outside the pinned vocabulary it calls.
+func blocksOwners(fn *ssa.Function) []*ssa.Function {
+	out := []*ssa.Function{fn}
+	seen := map[*ssa.Function]bool{fn: true}
+	for i := 0; i < len(out); i++ {
+		for _, b := range out[i].Blocks {
+			for _, in := range b.Instrs {
+				if call, ok := in.(ssa.CallInstruction); ok {
+					if cal := call.Common().StaticCallee(); cal != nil && cal.Pkg == fn.Pkg && !seen[cal] && defaultInline(cal) && cal.Blocks != nil {
+						seen[cal] = true
+						out = append(out, cal)
+					}
+				}
+			}
+		}
+	}
+	return out
+}
+
+// submatchGroupOf: v is load(&m[k]) with m = P.FindSubmatch(...), P a regexp global.
+func submatchGroupOf(v ssa.Value) (*ssa.Global, int, bool) {
+	ld, ok := v.(*ssa.UnOp)
+	if !ok || ld.Op != token.MUL {
+		return nil, 0, false
+	}
+	ia, ok := ld.X.(*ssa.IndexAddr)
+	if !ok {
+		return nil, 0, false
+	}
+	k, isC := bnConst(ia.Index)
+	if !isC {
+		return nil, 0, false
+	}
+	m := ia.X
+	for i := 0; i < 4; i++ {
+		if phi, ok := m.(*ssa.Phi); ok && len(phi.Edges) > 0 {
+			m = phi.Edges[0]
+			continue
+		}
+		break
+	}
+	call, ok := m.(*ssa.Call)
+	if !ok || call.Call.StaticCallee() == nil || call.Call.StaticCallee().Name() != "FindSubmatch" || len(call.Call.Args) < 1 {
+		return nil, 0, false
+	}
+	rl, ok := call.Call.Args[0].(*ssa.UnOp)
+	if !ok {
+		return nil, 0, false
+	}
+	g, ok := rl.X.(*ssa.Global)
+	if !ok {
+		return nil, 0, false
+	}
+	return g, int(k), true
+}
+
+// rxGroupStrings: the finite set of texts capture group k of the pattern can
+// hold (false when it is not a small finite set).
+func rxGroupStrings(pat string, k int) ([]string, bool) {
+	re, err := syntax.Parse(pat, syntax.Perl)
+	if err != nil {
+		return nil, false
+	}
+	var grp *syntax.Regexp
+	var find func(r *syntax.Regexp)
+	find = func(r *syntax.Regexp) {
+		if r.Op == syntax.OpCapture && r.Cap == k {
+			grp = r
+		}
+		for _, s := range r.Sub {
+			find(s)
+		}
+	}
+	find(re)
+	if grp == nil {
+		return nil, false
+	}
+	var enum func(r *syntax.Regexp) ([]string, bool)
+	enum = func(r *syntax.Regexp) ([]string, bool) {
+		switch r.Op {
+		case syntax.OpLiteral:
+			return []string{string(r.Rune)}, true
+		case syntax.OpEmptyMatch:
+			return []string{""}, true
+		case syntax.OpCapture:
+			return enum(r.Sub[0])
+		case syntax.OpCharClass:
+			var out []string
+			for i := 0; i+1 < len(r.Rune); i += 2 {
+				if r.Rune[i+1]-r.Rune[i] > 16 {
+					return nil, false
+				}
+				for c := r.Rune[i]; c <= r.Rune[i+1]; c++ {
+					out = append(out, string(c))
+				}
+			}
+			return out, len(out) <= 32
+		case syntax.OpAlternate:
+			var out []string
+			for _, s := range r.Sub {
+				o, ok := enum(s)
+				if !ok {
+					return nil, false
+				}
+				out = append(out, o...)
+			}
+			return out, len(out) <= 64
+		case syntax.OpConcat:
+			out := []string{""}
+			for _, s := range r.Sub {
+				o, ok := enum(s)
+				if !ok {
+					return nil, false
+				}
+				var nx []string
+				for _, a := range out {
+					for _, b := range o {
+						nx = append(nx, a+b)
+					}
+				}
+				out = nx
+				if len(out) > 64 {
+					return nil, false
+				}
+			}
+			return out, true
+		}
+		return nil, false
+	}
+	return enum(grp.Sub[0])
+}
+
+// fnBindings: the values bound to the free variables of closure fn where it
+// is created in parent.
+func fnBindings(parent, fn *ssa.Function) []ssa.Value {
+	for _, b := range parent.Blocks {
+		for _, in := range b.Instrs {
+			if mc, ok := in.(*ssa.MakeClosure); ok && mc.Fn == ssa.Value(fn) {
+				return mc.Bindings
+			}
+		}
+	}
+	return nil
 }
